@@ -378,6 +378,112 @@ func writeMarshalG2(repoRoot, srcRoot, verifRoot string, check bool) int {
 	return stale
 }
 
+// ---------------- point encoders ----------------
+
+// encoderContract writes the contract of one point encoder. The layout is the format's own rule, not read from the
+// code: a point coordinate is written as its base-field components in DESCENDING order (for Fp2: A1 then A0; for Fp4:
+// B1.A1, B1.A0, B0.A1, B0.A0), each as one big-endian field element, X first and (raw form) Y after it.
+func encoderContract(point, fn string, comps []string, raw bool, infMask, mask string, lex bool) string {
+	var b strings.Builder
+	size := "SizeOf" + point + "AffineCompressed"
+	if raw {
+		size = "SizeOf" + point + "AffineUncompressed"
+	}
+	fmt.Fprintf(&b, "//@ func %sAffine.%s\n//@ layer ring fp.Element\n//@ option opaque-calls\n//@ option opaque-writes PutElement:1\n//@ option nomerge\n", point, fn)
+	b.WriteString("//@ ghost zx = false\n//@ ghost zy = false\n//@ ghost lex = false\n//@ ghost n = 0\n//@ ghost seen = 0\n//@ ghost b0 = 0\n")
+	b.WriteString("//@ cut after call IsZero #1\n//@ + ghost zx = callresult\n//@ cut after call IsZero #2\n//@ + ghost zy = callresult\n")
+	if lex {
+		b.WriteString("//@ cut after call LexicographicallyLargest #1\n//@ + ghost lex = callresult\n")
+	}
+	coords := []string{"X"}
+	if raw {
+		coords = []string{"X", "Y"}
+	}
+	var alts []string
+	var bump []string
+	k := 0
+	for _, c := range coords {
+		for _, comp := range comps {
+			expr := "p." + c
+			if comp != "" {
+				expr += "." + comp
+			}
+			alts = append(alts, fmt.Sprintf("(winoff(callarg1) == %d*fp.Bytes && callarg2 == %s)", k, expr))
+			bump = append(bump, fmt.Sprintf("ite(winoff(callarg1) == %d*fp.Bytes, %d, ", k, 1<<uint(k)))
+			k++
+		}
+	}
+	fmt.Fprintf(&b, "//@ cut before call PutElement #*\n//@ + invariant[layout] samebase(callarg1, res) && (%s)\n", strings.Join(alts, " || "))
+	fmt.Fprintf(&b, "//@ cut after call PutElement #*\n//@ + ghost seen = seen + %s0%s\n//@ + ghost n = n + 1\n//@ + ghost b0 = res[0]\n", strings.Join(bump, ""), strings.Repeat(")", len(bump)))
+	fmt.Fprintf(&b, "//@ ensures[infinity] zx && zy ==> n == 0 && res[0] == %s && forall(j, 1, %s, res[j] == 0)\n", infMask, size)
+	fmt.Fprintf(&b, "//@ ensures[every-coordinate-once] !(zx && zy) ==> n == %d && seen == %d\n", k, (1<<uint(k))-1)
+	if lex {
+		b.WriteString("//@ ensures[flag-largest] !(zx && zy) && lex ==> res[0] == bor8(b0, mCompressedLargest)\n//@ ensures[flag-smallest] !(zx && zy) && !lex ==> res[0] == bor8(b0, mCompressedSmallest)\n")
+	} else {
+		fmt.Fprintf(&b, "//@ ensures[flag] !(zx && zy) ==> res[0] == bor8(b0, %s)\n", mask)
+	}
+	b.WriteString("//@ modifies nothing\n//@ end\n\n")
+	return b.String()
+}
+
+func writeEncoders(repoRoot, srcRoot string, check bool) int {
+	stale := 0
+	g2 := map[string]g2MarshalCfg{}
+	for _, c := range g2MarshalCfgs(srcRoot) {
+		g2[c.Pkg] = c
+	}
+	for _, pk := range marshalPkgs(srcRoot) {
+		rel := strings.TrimPrefix(pk, "./")
+		srcb, _ := os.ReadFile(filepath.Join(srcRoot, rel, "marshal.go"))
+		src := string(srcb)
+		if !strings.Contains(src, "\nfunc (p *G1Affine) Bytes() (res [SizeOfG1AffineCompressed]byte) {") {
+			continue
+		}
+		pkg := ""
+		fmt.Sscanf(after(src, "\npackage "), "%s", &pkg)
+		rawInf := "mUncompressed"
+		if strings.Contains(src, "mUncompressedInfinity") {
+			rawInf = "mUncompressedInfinity"
+		}
+		var out strings.Builder
+		fmt.Fprintf(&out, `//go:build verif
+
+// Contracts for the point encoders of this curve (comment-only; installed by /verif/gcv gen-contracts). The layout
+// is stated from the format, not read from the code: a point is written as its X coordinate (and, in raw form, its Y
+// coordinate after it), a coordinate as its base-field components in descending order (Fp2: A1 then A0; Fp4: B1.A1,
+// B1.A0, B0.A1, B0.A0), each component as one big-endian field element in consecutive windows of fp.Bytes bytes.
+// Under contract: the point at infinity (both coordinates zero, as IsZero reports) is the flag byte followed by
+// zeros and no coordinate is written; otherwise every window receives exactly the component the format assigns to it,
+// each exactly once (PutElement is an opaque call that overwrites the result array), and the first byte is then the
+// first byte the codec wrote with the flag or-ed in: compressed forms carry the "largest" flag exactly when
+// LexicographicallyLargest reported true for Y. That the codec writes the big-endian regular form of the component is
+// its own contract (C08); that the flag bits do not collide with the bits of X is arithmetic on the modulus.
+
+package %s
+
+`, pkg)
+		out.WriteString(encoderContract("G1", "Bytes", []string{""}, false, "mCompressedInfinity", "", true))
+		out.WriteString(encoderContract("G1", "RawBytes", []string{""}, true, rawInf, "mUncompressed", false))
+		if c, ok := g2[pk]; ok && strings.Contains(src, "\nfunc (p *G2Affine) Bytes() (res [SizeOfG2AffineCompressed]byte) {") {
+			comps := []string{""}
+			switch {
+			case c.Kind == "ext" && c.K == 2:
+				comps = []string{"A1", "A0"}
+			case c.Kind == "ext" && c.K == 4:
+				comps = []string{"B1.A1", "B1.A0", "B0.A1", "B0.A0"}
+			case c.Kind == "ext":
+				comps = nil
+			}
+			if comps != nil {
+				out.WriteString(encoderContract("G2", "Bytes", comps, false, "mCompressedInfinity", "", true))
+				out.WriteString(encoderContract("G2", "RawBytes", comps, true, rawInf, "mUncompressed", false))
+			}
+		}
+		stale += installText(filepath.Join(repoRoot, rel, "zz_verif_contracts_encode.go"), out.String(), check)
+	}
+	return stale
+}
+
 // ---------------- FFT kernels ----------------
 
 type fftCfg struct {
